@@ -6,6 +6,10 @@ ids = [p['id'] for p in props]
 
 # id -> (level, technique, text, note)
 CLAIMED = {
+ "C25": ("exploration", "every cache hit is compared with uncached execution at the moment of the hit (twin execution), under random read/write interleavings",
+         "The adapter's caching protocol is reproduced and every hit is checked against the current database for query texts and table references chosen to stress key normalisation and dependency extraction.",
+         "Protocol reproduced from tests/sqllogictest/db_adapter.rs."),
+
  "C18": ("exploration", "reload twin: original vs re-loaded database compared on metadata, bit-exact rows, index definitions and index-driven queries",
          "Databases over all supported column types, one hard value class per case, with user indexes and prior DML are saved and loaded in all three native formats and compared with the original.",
          "Original in-memory database is the oracle."),
